@@ -33,28 +33,44 @@ def rule_add_roa(ctx):
             oc = oc.base
         if oc.kind == 'call' and oc.callee.endswith('Iterator>::next') or (oc.kind == 'call' and oc.callee.endswith('::next')):
             heads.append((sbb, oc.site.bb, edges))
-    ctx.floor('K4', 'origin loop in add_roa', len(heads), 1)
+    # the per-origin decision is either the body of a loop or the predicate closure of `.filter(..)` feeding `extend`
+    pred = []
     if not heads:
+        for s in b.calls(['re:Iterator(>)?::filter$', 're:Iterator(>)?::filter_map$']):
+            for a in s.term['args'][1:]:
+                o = b.origin_of_operand(a)
+                while o is not None and o.kind in ('ref', 'cast'):
+                    o = o.base
+                if o is not None and o.kind == 'agg' and o.rv.get('kind') == 'closure':
+                    pred += ctx.facts.find(norm(o.rv['def']))
+    ctx.floor('K4', 'origin loop in add_roa', len(heads) + len(pred), 1)
+    if not heads and not pred:
         return
-    sbb, callbb, edges = heads[0]
-    body_start = [tb for tb, labs in edges.items() if labs == {'Some'}]
     paths = []
-    for st in body_start:
-        paths += enumerate_paths(b, ctx.facts, start=st)
+    if heads:
+        sbb, callbb, edges = heads[0]
+        body_start = [tb for tb, labs in edges.items() if labs == {'Some'}]
+        for st in body_start:
+            paths += [(p, bool(p.called('Vec::push'))) for p in enumerate_paths(b, ctx.facts, start=st)]
+    else:
+        ctx.bodies.add(pred[0].nid)
+        paths = [(p, p.outcome == 'const(1)') for p in enumerate_paths(pred[0], ctx.facts) if p.kind == 'return']
+        ctx.check(bool(b.calls(['re:Extend(<.*>)?(>)?::extend$', 're:Vec(<.*>)?::extend$', 're:::extend$', 're:::collect$'])), 'K4', 'add_roa:filtered-origins-stored',
+                  'the filtered origins are stored', 'the filtered iterator is not stored into the origins')
     n = 0
-    for p in paths:
-        cm = p.cond_map()
+    for p, pushed_ in paths:
+        cm = {re.sub(r'^upvar:', '', v): l for v, l in p.cond_map().items()}
         fam = lim = cmpv = None
         fam_recv_ok = False
         for v, labs in cm.items():
             if v.startswith('call:Prefix::is_v4(') and len(labs) == 1:
                 fam = list(labs)[0]
-                fam_recv_ok = 'Iterator>::next' in v or '::next(' in v
+                fam_recv_ok = 'Iterator>::next' in v or '::next(' in v or (bool(pred) and 'upvar' not in v)
             elif re.match(r'^limit_v[46]_len$', v) and len(labs) == 1:
                 lim = (v, list(labs)[0])
             elif v.startswith('cmp(') and 'Prefix::len' in v:
                 cmpv = labs
-        pushed = bool(p.called('Vec::push'))
+        pushed = pushed_
         if fam is None:
             ctx.bad('K4', 'add_roa:family-not-tested',
                     'an iteration of add_roa does not choose the limit by is_v4() of the origin (conditions: %s)' % {k: sorted(v) for k, v in cm.items()})
@@ -72,13 +88,22 @@ def rule_add_roa(ctx):
             exp = True
         else:
             exp = cmpv is not None and 'Greater' not in cmpv
+            o_ = p.outcome or ''
+            if cmpv is None and pred and re.match(r'^(Ge|Le|Gt|Lt)\(', o_) and 'Prefix::len' in o_:
+                # the predicate returns the comparison itself: kept iff len <= limit
+                m_ = re.match(r'^(Ge|Le|Gt|Lt)\((.*)\)$', o_)
+                first_is_len = o_.index('Prefix::len') < len(m_.group(1)) + 2 + 12
+                good = (m_.group(1) == 'Le' and first_is_len) or (m_.group(1) == 'Ge' and not first_is_len)
+                ctx.check(good, 'K4', 'add_roa:%s=Some,kept<=>len<=limit' % want, 'kept iff prefix length <= limit',
+                          'the limit predicate is `%s`: an origin must be kept exactly when its prefix length is at most the limit' % o_[:140])
+                continue
             if cmpv is None:
                 ctx.bad('K4', 'add_roa:limit-not-compared', 'a set limit is not compared with the prefix length')
                 continue
         ctx.check(pushed == exp, 'K4', 'add_roa:%s=%s,len-vs-limit=%s' % (want, lim[1], sorted(cmpv) if cmpv else '-'),
                   'pushed=%s' % pushed,
                   'origin with %s=%s and len-vs-limit=%s has pushed=%s (expected %s)' % (want, lim[1], sorted(cmpv) if cmpv else '-', pushed, exp))
-    ctx.floor('K4', 'iteration paths of add_roa', n, 6)
+    ctx.floor('K4', 'iteration paths of add_roa', n, 4 if pred else 6)
     # operands of the comparison: prefix length of this origin vs the chosen limit's payload
     for sbb2 in b.switches():
         from lib.tables import order_edges
@@ -250,7 +275,37 @@ def rule_aspa(ctx):
                       'ProviderAsns::try_from_iter is applied to `%s`, not to the complete provider set' % d, loc=t.loc())
     s = ctx.body('payload::validation::SnapshotBuilder::into_snapshot')
     cls = [c for c in ctx.closures(s) if c.calls('ProviderAsns::try_from_iter')]
-    ctx.floor('K4', 'size-limit closure in into_snapshot', len(cls), 1)
+    direct = s.calls('ProviderAsns::try_from_iter')
+    ctx.floor('K4', 'size-limit closure in into_snapshot', len(cls) + len(direct), 1)
+    for t in direct:
+        d = arg_desc(t, 0)
+        ctx.check(bool(re.match(r'^call:SmallAsnSet::iter\(.*\)$', d)) and 'filter' not in d and 'take' not in d,
+                  'K4', 'into_snapshot:size-test-on-whole-set',
+                  'the encodability test is applied to the complete provider set (%s)' % d[:80],
+                  'ProviderAsns::try_from_iter is applied to `%s`, not to the complete provider set' % d[:120], loc=t.loc())
+    if direct:
+        # the conversion as an explicit loop: after an Ok the set is pushed, after an Err nothing is, before the next set
+        from lib.tables import timeline, strip_suffix
+        n_ok = n_err = 0
+        bad = None
+        for p in enumerate_paths(s, ctx.facts, max_visits=2):
+            state = None
+            for tl in timeline(p):
+                if tl[0] == 'cond' and strip_suffix(tl[1]).startswith('call:ProviderAsns::try_from_iter') and len(tl[2]) == 1:
+                    if state == 'Ok':
+                        bad = bad or 'an encodable set is not pushed before the next one is converted'
+                    state = list(tl[2])[0]
+                    n_ok += state == 'Ok'
+                    n_err += state == 'Err'
+                elif tl[0] == 'ev' and tl[1].callee.endswith('::push') and 'Vec' in tl[1].callee:
+                    if state == 'Err':
+                        bad = bad or 'an unencodable set is pushed'
+                    elif state == 'Ok':
+                        state = None
+            if state == 'Ok' and p.kind == 'return':
+                bad = bad or 'an encodable set is not pushed'
+        ctx.check(bad is None and n_ok and n_err, 'K4', 'into_snapshot:too-large=>dropped', 'encodable sets are kept, unencodable ones dropped',
+                  'into_snapshot: %s' % (bad or 'the conversion loop has no Ok/Err rows'))
     for c in cls:
         for p in enumerate_paths(c, ctx.facts):
             cm = p.cond_map()
